@@ -42,10 +42,20 @@ impl Scenario {
     }
 }
 
-fn run_thread(map: &AnyMap, id: u32, txs: &[Tx], f2: Vec<u32>) -> Vec<TxOut> {
+/// What every thread had finished when an execution was torn down (panic, deadlock, bound).
+pub type Progress = Arc<std::sync::Mutex<Vec<(usize, usize, TxOut)>>>;
+
+fn run_thread(map: &AnyMap, id: u32, txs: &[Tx], f2: Vec<u32>, progress: &Progress) -> Vec<TxOut> {
     fast_stm::verif::set_sim_thread(id, f2);
     faults::reset_thread();
-    txs.iter().map(|tx| run_tx(map, tx)).collect()
+    txs.iter()
+        .enumerate()
+        .map(|(i, tx)| {
+            let o = run_tx(map, tx);
+            progress.lock().unwrap().push((id as usize - 1, i, o.clone()));
+            o
+        })
+        .collect()
 }
 
 /// Serial execution of the listed transactions, in the given order, on a fresh map.
@@ -103,7 +113,14 @@ fn compare_serial(order: &[(usize, usize)], conc: &[Vec<TxOut>], conc_fin: &Stat
 
 /// The concurrent run plus, inside the same execution, the serial replay in commit order.
 pub fn run_concurrent(scn: Arc<Scenario>, spec: SchedSpec, max_steps: usize) -> ExecResult<ConcOut> {
-    execute(spec, max_steps, move || {
+    run_concurrent_with_progress(scn, spec, max_steps).0
+}
+
+pub fn run_concurrent_with_progress(scn: Arc<Scenario>, spec: SchedSpec, max_steps: usize) -> (ExecResult<ConcOut>, Vec<(usize, usize, TxOut)>) {
+    let progress: Progress = Arc::new(std::sync::Mutex::new(vec![]));
+    let p2 = progress.clone();
+    let r = execute(spec, max_steps, move || {
+        let progress = &p2;
         let (mut map, info) = build_map(&scn.init, &scn.order);
         fast_stm::verif::set_sim_thread(0, vec![]);
         faults::reset_thread();
@@ -117,7 +134,7 @@ pub fn run_concurrent(scn: Arc<Scenario>, spec: SchedSpec, max_steps: usize) -> 
                 .enumerate()
                 .map(|(ti, txs)| {
                     let f2 = scnr.f2.get(ti).cloned().unwrap_or_default();
-                    s.spawn(move || run_thread(mapr, ti as u32 + 1, txs, f2))
+                    s.spawn(move || run_thread(mapr, ti as u32 + 1, txs, f2, progress))
                 })
                 .collect();
             hs.into_iter().map(|h| h.join().unwrap()).collect()
@@ -147,7 +164,41 @@ pub fn run_concurrent(scn: Arc<Scenario>, spec: SchedSpec, max_steps: usize) -> 
             eprintln!("TRACE serial final beta: {:?}", ser_fin.beta);
         }
         ConcOut { outs, fin, fast_match: cmp.is_ok(), fast_detail: cmp.err().unwrap_or_default(), build_tries: info.tries }
-    })
+    });
+    let p = progress.lock().unwrap().clone();
+    (r, p)
+}
+
+/// Triage of a deadlock (or of non-termination under the fair, fault-free phase): the
+/// transactions that had finished are replayed serially in commit order on a fresh map (the
+/// cancelled ones published nothing), then each blocked transaction — the next one of every
+/// unfinished thread — is run alone in that state. If one of them completes there, nothing
+/// sequential explains why it stayed blocked: its wake-up was lost (or a lock cycle formed).
+/// Returns Some(description) for such an unexplained block, None when every blocked transaction
+/// blocks in the final state too.
+pub fn unexplained_block(scn: &Arc<Scenario>, progress: &[(usize, usize, TxOut)]) -> Option<String> {
+    let mut committed: Vec<(u64, usize, usize)> = progress.iter().filter(|(_, _, o)| o.committed()).map(|(t, i, o)| (o.stamp, *t, *i)).collect();
+    committed.sort_unstable();
+    let base: Vec<(usize, usize)> = committed.iter().map(|&(_, t, i)| (t, i)).collect();
+    for (t, txs) in scn.threads.iter().enumerate() {
+        let done = progress.iter().filter(|(pt, _, _)| *pt == t).count();
+        if done >= txs.len() {
+            continue;
+        }
+        let mut order = base.clone();
+        order.push((t, done));
+        match run_serial(scn.clone(), order) {
+            SerialOutcome::Done(outs, _) => {
+                return Some(format!(
+                    "thread {t} stayed blocked in its transaction {done} although, after the {} committed transactions in commit order, that transaction completes when run alone (result {:?})",
+                    base.len(),
+                    outs.last().map(|o| &o.value)
+                ));
+            }
+            SerialOutcome::Panic(_) | SerialOutcome::Blocks => {}
+        }
+    }
+    None
 }
 
 #[derive(Debug)]
